@@ -695,6 +695,10 @@ where
 
     pub fn set_options(&mut self, options: ParseOptions) {
         self.storage.options = options;
+        // objects loaded under the old options (errors swallowed or not) must not be served
+        // under the new ones
+        self.storage.cache.clear();
+        self.storage.stream_cache.clear();
     }
 
     pub fn scan(&self) -> impl Iterator<Item = Result<ScanItem>> + '_ {
